@@ -163,7 +163,17 @@ func Run(t testing.TB, prop, family string, n int, fn func(c *Case)) {
 		func() {
 			defer func() {
 				if r := recover(); r != nil {
-					out.line(map[string]any{"t": "harness-error", "id": c.ID, "what": fmt.Sprint(r), "stack": string(debug.Stack())}, true)
+					stack := string(debug.Stack())
+					if fn := panicOriginInGoZero(stack); fn != "" {
+						// the panic was raised inside go-zero code (not in the harness, not a user
+						// function of the harness re-raised on purpose - property packages recover
+						// those themselves): on the unchanged tree no case does that, so it is the
+						// code under test misbehaving, not an infrastructure failure.
+						c.Viol(prop+"/panic-in-go-zero/"+fn, "go-zero panicked during this case: "+firstLine(fmt.Sprint(r)),
+							map[string]any{"panic": fmt.Sprint(r), "stack": stack})
+						return
+					}
+					out.line(map[string]any{"t": "harness-error", "id": c.ID, "what": fmt.Sprint(r), "stack": stack}, true)
 					t.Errorf("case %s: unexpected panic in harness: %v", c.ID, r)
 				}
 			}()
@@ -178,6 +188,53 @@ func Run(t testing.TB, prop, family string, n int, fn func(c *Case)) {
 		out.mu.Unlock()
 		out.line(map[string]any{"t": "done", "id": c.ID, "n": ev}, false)
 	}
+}
+
+// panicOriginInGoZero inspects the stack captured in a deferred recover: the frames
+// after the runtime's panic frames are those of the panicking goroutine at the point of
+// the panic. It returns the innermost such function if it belongs to go-zero proper
+// (not the overlaid verifkit, not a test file), else "".
+func panicOriginInGoZero(stack string) string {
+	lines := strings.Split(stack, "\n")
+	seenPanic := false
+	for i := 0; i+1 < len(lines); i++ {
+		ln := lines[i]
+		if strings.HasPrefix(ln, "panic(") || strings.HasPrefix(ln, "runtime.gopanic") {
+			seenPanic = true
+			i++ // skip its file line
+			continue
+		}
+		if !seenPanic || strings.HasPrefix(ln, "\t") || strings.HasPrefix(ln, "goroutine ") || ln == "" {
+			continue
+		}
+		if strings.HasPrefix(ln, "runtime.") || strings.HasPrefix(ln, "runtime/") || strings.HasPrefix(ln, "reflect.") ||
+			strings.HasPrefix(ln, "sync.") || strings.HasPrefix(ln, "sync/") || strings.HasPrefix(ln, "internal/") {
+			i++
+			continue
+		}
+		file := strings.TrimSpace(lines[i+1])
+		const mod = "github.com/zeromicro/go-zero/"
+		if strings.HasPrefix(ln, mod) && !strings.Contains(ln, "verifkit") && !strings.Contains(file, "_test.go") &&
+			!strings.Contains(file, "/verif/") {
+			fn := strings.TrimPrefix(ln, mod)
+			if j := strings.LastIndex(fn, "("); j > 0 {
+				fn = fn[:j]
+			}
+			return fn
+		}
+		return ""
+	}
+	return ""
+}
+
+func firstLine(s string) string {
+	if i := strings.IndexByte(s, '\n'); i >= 0 {
+		s = s[:i]
+	}
+	if len(s) > 200 {
+		s = s[:200]
+	}
+	return s
 }
 
 // Evals declares that this case stands for n evaluations (default 1).
